@@ -127,6 +127,7 @@ def run(F, chk):
             else:
                 rc.violation(key, "%s:%d" % (f["file"], f["line"]), "field is skipped when serialised (%s) but has no #[serde(default)] and is not an Option: a saved state omitting it fails to load" % sk[0])
     chk.extra["C05_structs_scanned"] = n_adts
+    converter_rule(F, chk)
     # ---------------- R-C05-d ------------------------------------------------
     rd = chk.rule("R-C05-d", "T8", "listener patch types: master applier, worker applier and message agree on the field set", floor=60)
     for sname, (mfn, wfn) in sorted(APPLIERS.items()):
@@ -145,3 +146,51 @@ def run(F, chk):
             else:
                 rd.violation(key + "|not applied by " + "+".join(m.split()[0] for m in miss), F.body(mfn if "master" in miss[0] else wfn).where(),
                              "patch field %s.%s is not applied by %s: the two views diverge and the value is lost on the next replay" % (sname, f, " nor ".join(miss)))
+
+
+# ---------------------------------------------------------------------------------------------------------
+PAIRS = [("sozu_command_lib::response::HttpFrontend", PC + "RequestHttpFrontend"),
+         ("sozu_command_lib::response::TcpFrontend", PC + "RequestTcpFrontend"),
+         ("sozu_command_lib::response::UdpFrontend", PC + "RequestUdpFrontend"),
+         ("sozu_command_lib::response::Backend", PC + "AddBackend")]
+IDENTITY = ("::clone", "::to_owned", "::into", "::from", "::try_from", "::map", "::map_err", "::unwrap_or_default",
+            "::unwrap_or", "::ok_or", "::ok_or_else", "::ok", "::branch", "::from_residual", "::to_string", "::as_ref",
+            "::as_deref", "::cloned", "::copied", "::unwrap_or_else", "::and_then", "::deref", "::borrow")
+
+
+def converter_rule(F, chk):
+    """R-C05-e: the stored <-> request converters are field-wise identity conversions. State keys are computed from
+    the *request* (`front.to_string()`), the stored value from the converted struct, and replay re-derives the request
+    from the stored value: any transformation applied to a field on the way (case folding, trimming, arithmetic) makes
+    key and value - or original and replayed entry - disagree."""
+    r = chk.rule("R-C05-e", "T8", "stored <-> request converters are field-wise identity conversions", floor=50)
+    import guards as g
+    for stored, req in PAIRS:
+        for target, source in ((stored, req), (req, stored)):
+            for b in F.grep('"adt":"%s"' % target):
+                if b.derived or not b.path.startswith(("sozu_command_lib::", "<sozu_command_lib::")):
+                    continue
+                # functions taking the sibling type (by value, by ref, or as self)
+                if not any(source.split("::")[-1] in b.locals[a] and source.rsplit("::", 1)[0].split("::")[-1] in b.locals[a]
+                           for a in range(1, b.argc + 1)):
+                    continue
+                for bi, si, s in b.stmts():
+                    rv = s.get("rv")
+                    if not (rv and rv["k"] == "agg" and rv.get("ak") == "adt" and rv["adt"] == target):
+                        continue
+                    r.fn(b.path)
+                    for fname, o in zip(rv["fn"], rv["ops"]):
+                        sl = g.slice_of_operand(b, o)
+                        bad = sorted(c for c in sl["callees"] if not c.endswith(IDENTITY))
+                        # closures feeding the value
+                        for l in sl["locals"]:
+                            for d in b.defs().get(l, []):
+                                if d[2] == "assign" and d[3]["k"] == "agg" and d[3].get("ak") == "closure" and F.has(d[3]["clo"]):
+                                    cb = F.body(d[3]["clo"])
+                                    bad += sorted(callee_of(t) for _, t in cb.calls() if not callee_of(t).endswith(IDENTITY)
+                                                  and not t.get("x"))
+                        key = "%s|%s.%s" % (b.path, target.split("::")[-1], fname)
+                        if bad:
+                            r.violation(key, b.where(bi, si), "field %s of %s is not a plain copy of the source field: it passes through %s - the state key (computed from the request) and the stored/replayed value can disagree" % (fname, target.split("::")[-1], [x.split("::")[-1] for x in bad][:4]))
+                        else:
+                            r.ok(key, b.where(bi, si), "identity conversion", nontrivial=False)
